@@ -214,6 +214,7 @@ type ShadowResult struct {
 	Burnt  *big.Int
 	Dest   *common.Address // stake destination of a termination
 	Req    map[common.Address]*big.Int // requested balances
+	Base   map[common.Address]*big.Int // what the probe took as the balance before the run (pre-state + escrow)
 }
 
 // RunShadow executes the embedded contract code of tx against the probe.  ro must be the committed
@@ -325,5 +326,13 @@ func RunShadow(ro *appstate.AppState, hdr *types.Header, tx *types.Transaction, 
 	sort.Slice(res.Writes, func(i, j int) bool { return res.Writes[i].K < res.Writes[j].K })
 	res.Moved, res.Burnt = sh.Moved, sh.Burnt
 	res.Req = sh.bal
+	res.Base = map[common.Address]*big.Int{}
+	for a := range sh.bal {
+		b := new(big.Int).Set(ro.State.GetBalance(a))
+		if d, ok := sh.adj[a]; ok {
+			b.Add(b, d)
+		}
+		res.Base[a] = b
+	}
 	return
 }
